@@ -54,6 +54,19 @@ type c42Case struct {
 	Script  []c42Op
 }
 
+// c42SM4: implemented by bfe_tls only; no standard client offers it, so bfe_tls.Client is the
+// peer for this one suite (the oracle does not depend on who encrypts).
+var c42SM4 = suiteInfo{0xe019, "RSA_SM4_SM3", false, false, false, false, false, "sm4", false}
+
+var c42Suites = append(append([]suiteInfo{}, stdSuites...), c42SM4)
+
+func c42SuiteByID(id uint16) *suiteInfo {
+	if id == c42SM4.id {
+		return &c42SM4
+	}
+	return suiteByID(id)
+}
+
 type wireRec struct {
 	typ  byte
 	data []byte // header + body
@@ -76,18 +89,22 @@ func parseRecords(b []byte) (recs []wireRec, rest []byte) {
 // only splits are 16384-byte chunking and the 1/n-1 split for CBC in TLS 1.0).
 func c42Layout(si *suiteInfo, vers uint16, writes []int) []int {
 	var out []int
+	chunk := 16384
+	if si.class == "sm4" {
+		chunk = 1024 // bfe_tls writes application data in 1024-byte records unless dynamic sizing is on
+	}
 	for _, l := range writes {
 		if l == 0 {
 			continue
 		}
-		if l > 1 && vers <= vTLS10 && (si.class == "cbc" || si.class == "3des") {
+		if l > 1 && vers <= vTLS10 && (si.class == "cbc" || si.class == "3des" || si.class == "sm4") {
 			out = append(out, 1)
 			l--
 		}
 		for l > 0 {
 			m := l
-			if m > 16384 {
-				m = 16384
+			if m > chunk {
+				m = chunk
 			}
 			out = append(out, m)
 			l -= m
@@ -106,11 +123,14 @@ func c42CipherLen(si *suiteInfo, vers uint16, n int) int {
 	case "rc4":
 		return n + 20
 	}
-	bs := 16
+	bs, mac := 16, 20
 	if si.class == "3des" {
 		bs = 8
 	}
-	l := n + 20 + 1
+	if si.class == "sm4" {
+		mac = 32 // HMAC-SM3
+	}
+	l := n + mac + 1
 	l += (bs - l%bs) % bs
 	if vers >= vTLS11 {
 		l += bs
@@ -122,7 +142,7 @@ func c42IVLen(si *suiteInfo, vers uint16) int {
 	switch si.class {
 	case "gcm":
 		return 8
-	case "cbc":
+	case "cbc", "sm4":
 		if vers >= vTLS11 {
 			return 16
 		}
@@ -162,6 +182,9 @@ func c42Apply(recs []wireRec, hsRecs []wireRec, si *suiteInfo, vers uint16, scri
 			tail := 20
 			if si.class == "gcm" || si.class == "chacha" {
 				tail = 16
+			}
+			if si.class == "sm4" {
+				tail = 32
 			}
 			switch op.Reg {
 			case "hdr":
@@ -360,7 +383,15 @@ func c42Execute(k *c42Case, si *suiteInfo, sent []byte) (out c42Run) {
 			}
 		}
 	}()
-	cli := tls.Client(cEnd, cliCfg)
+	type tlsClient interface {
+		Handshake() error
+		Write([]byte) (int, error)
+		Close() error
+	}
+	var cli tlsClient = tls.Client(cEnd, cliCfg)
+	if si.class == "sm4" {
+		cli = bfe_tls.Client(cEnd, &bfe_tls.Config{MinVersion: k.Vers, MaxVersion: k.Vers, CipherSuites: []uint16{k.Suite}, InsecureSkipVerify: true})
+	}
 	cerr := cli.Handshake()
 	if cerr != nil {
 		cEnd.Close()
@@ -411,7 +442,7 @@ func c42Execute(k *c42Case, si *suiteInfo, sent []byte) (out c42Run) {
 }
 
 func c42Check(tb ev.TB, rec *ev.Rec, k *c42Case) {
-	si := suiteByID(k.Suite)
+	si := c42SuiteByID(k.Suite)
 	total := 0
 	for _, l := range k.Writes {
 		total += l
@@ -550,7 +581,7 @@ var c42Kinds = []string{"flip", "flip", "flip", "trunc", "shrink", "extend", "dr
 
 func drawC42(rt *rapid.T) *c42Case {
 	k := &c42Case{}
-	si := rapid.SampledFrom(stdSuites).Draw(rt, "suite")
+	si := rapid.SampledFrom(c42Suites).Draw(rt, "suite")
 	k.Suite = si.id
 	if si.tls12 {
 		k.Vers = vTLS12
@@ -597,10 +628,10 @@ func drawC42(rt *rapid.T) *c42Case {
 }
 
 func TestC42(t *testing.T) {
-	rec := ev.New("C42", "std crypto/tls client -> MITM -> bfe_tls.Server; per case: suite (every suite of bfe_tls a std client can offer: AES-GCM, ChaCha20, AES-CBC-SHA, 3DES-CBC-SHA, RC4-SHA; ECDHE/RSA kx, RSA/ECDSA cert) x version TLS1.0/1.1/1.2, 1-6 client writes (1 byte .. 40000 bytes), close_notify or not, server transport read granularity, tamper script of 0-3 operations on the post-handshake client->server records (bit flip in header/IV/body/MAC, truncate, shrink, extend, drop, duplicate, replay later, swap, forged record, garbage, cut at/inside a record, header type/version/length rewrite, handshake record re-injection). non-trivial: the delivered stream differs from the sent one before a close_notify; distinct by the whole case")
+	rec := ev.New("C42", "std crypto/tls client -> MITM -> bfe_tls.Server; per case: suite (every suite of bfe_tls a std client can offer: AES-GCM, ChaCha20, AES-CBC-SHA, 3DES-CBC-SHA, RC4-SHA; ECDHE/RSA kx, RSA/ECDSA cert; plus SM4-CBC-SM3 with bfe_tls.Client as peer) x version TLS1.0/1.1/1.2, 1-6 client writes (1 byte .. 40000 bytes), close_notify or not, server transport read granularity, tamper script of 0-3 operations on the post-handshake client->server records (bit flip in header/IV/body/MAC, truncate, shrink, extend, drop, duplicate, replay later, swap, forged record, garbage, cut at/inside a record, header type/version/length rewrite, handshake record re-injection). non-trivial: the delivered stream differs from the sent one before a close_notify; distinct by the whole case")
 	getCerts()
 	// deterministic sweep: every suite x version x every single operation on the 2nd record
-	for _, si := range stdSuites {
+	for _, si := range c42Suites {
 		for _, v := range []uint16{vTLS10, vTLS11, vTLS12} {
 			if si.tls12 && v != vTLS12 {
 				continue
